@@ -423,7 +423,7 @@ def compute_value_counts(input_dataframe: pd.DataFrame, args: Any):
     for column in input_dataframe.columns:
         main_values = input_dataframe[column].values
         for value in main_values:
-            if value not in ignored_values:
+            if (column, value) not in ignored_values:
                 global_storage[(column, value)] += 1
 
     keys_to_remove = []
